@@ -8,7 +8,10 @@ from pyvc import solve
 def load_model(modules):
     m = Model()
     for name in modules:
-        importlib.import_module('contracts.' + name).build(m)
+        mod = importlib.import_module('contracts.' + name)
+        for fn in ('build', 'build2', 'build3', 'build4', 'build5'):
+            if hasattr(mod, fn):
+                getattr(mod, fn)(m)
     return m
 
 
